@@ -87,14 +87,36 @@ func (c *Context) contractOf(fn *ssa.Function) *FuncContract {
 // preconditions are then obligations of that check), or a trusted / pure declaration. Contracts written for other
 // properties are not used (the callee is inlined or havocked instead, which only loses information).
 func (c *Context) callContractOf(fn *ssa.Function) *FuncContract {
+	return c.callContractFor(fn, c.prop)
+}
+
+func (c *Context) callContractFor(fn *ssa.Function, prop string) *FuncContract {
 	p := originPkgPath(fn)
 	name := fnDisplayName(fn)
 	for _, fc := range c.contracts[p] {
 		if fc.Func != name {
 			continue
 		}
-		if fc.Trusted || fc.Pure || c.prop == "" || fc.hasProp(c.prop) && (!fc.FromTemplate || len(fc.Clauses) > 0 || len(fc.Assigns) > 0 || fc.Frame || len(fc.EffectCl) == 0) {
+		if fc.Trusted || fc.Pure || prop == "" || fc.hasProp(prop) && (!fc.FromTemplate || len(fc.Clauses) > 0 || len(fc.Assigns) > 0 || fc.Frame || len(fc.EffectCl) == 0) {
 			return fc
+		}
+	}
+	return nil
+}
+
+// callContractOf (engine): a function whose contract serves several properties (`property A B`) is verified with the
+// callee contracts of each of them, whichever of them is being checked: its clauses were written against those.
+func (e *Engine) callContractOf(fn *ssa.Function) *FuncContract {
+	if fc := e.ctx.callContractOf(fn); fc != nil {
+		return fc
+	}
+	if e.fc != nil {
+		for _, q := range e.fc.Shared {
+			if q != e.ctx.prop {
+				if fc := e.ctx.callContractFor(fn, q); fc != nil {
+					return fc
+				}
+			}
 		}
 	}
 	return nil
